@@ -296,6 +296,12 @@ CORPUS = [
 ]
 
 
+def extract(run):
+    from harness import extract as X
+
+    return X.generate("C15")
+
+
 def explore(run, driver, budget):
     run.info["rule"] = RULE
     n = {"quick": 120, "thorough": 5000, "search": 800}[budget]
